@@ -21,8 +21,14 @@
 //!        the independently computed one.  mode: 0 = one Reader for all regions, 1 = a fresh
 //!        Reader per region, 2 = IndexedReader (built from a .crai read back from disk).
 //!
-//!   records  = `;`-separated `rid:start:end:seq:cigar:readlen` (`*:0:0:seq:*:readlen` unmapped);
+//!   records  = `;`-separated `rid:start:end:bases:cigar:readlen`; `*:0:0:0:*:readlen` = unmapped,
+//!              `rid:start:end:0:*:readlen` = placed unmapped (flag 0x4 with RNAME/POS, index cases
+//!              only), bases = 1 for mapped records (they carry SEQ/QUAL and need their reference);
 //!              record i is named `r<i>`; `end` is recomputed here from the CIGAR.
+//!
+//! History: this check found that cram::fs::index panicked on multi-reference slices (repaired by
+//! 8aa2016; a recurrence is tagged `cram-index-multiref-slice-panics`) and that Query ignored the
+//! record's reference id (repaired by 6527417; tag `cram-query-ignores-reference-id`).
 //!   layout   = `;`-separated `offset:header_len:body_len:landmark:slice_len:nrecords`, the data
 //!              containers observed when the generator wrote the file; `run` writes the file
 //!              again and checks that its own walker sees the same layout.
